@@ -484,7 +484,128 @@ def drv_reuse(ctx: Ctx, sub: SubCheck):
 
 
 
+# ---------------------------------------------------------------------------------------------- histories across the codes
+# (seeded round 7: C06-7 / C02-7 / C04-7 - a repair table, syndrome memo or error-pattern table shared by sibling codes and keyed
+# on something they have in common: the dimension k = 11 of (15,11,3) and (16,11,4), the length n = 16 of (16,11,4) and QR(16,7,6),
+# a syndrome padded to whole octets.  Only a history that sends *the same bit image* through several codes can see it.)
+
+_OPS_ALL = ("check", "generate")
+_OPS_HAMMING = ("check", "generate", "repair", "numpy")
+
+
+def oracle_cross_code(case):
+    """case = {steps: [[code, value, op], ...]}.  value is an integer bit image; each code looks at its own width of it (the low
+    n bits for check / repair / numpy, the low k bits for generate).  Every call must give the reference result for ITS code
+    and ITS word, whatever the other codes were asked before."""
+    for code, v, op in case["steps"]:
+        n, k = gf2.CODES[code][0], gf2.CODES[code][1]
+        cls = lib(code)
+        if op == "generate":
+            m = v & ((1 << k) - 1)
+            st, res = call(cls.generate, _bits(m, k))
+            got = gf2.bits_to_int([int(x) for x in numpy.asarray(res).tolist()])
+            exp = gf2.bits_to_int(gf2.ref_encode(code, gf2.int_to_bits(m, k)))
+            if got != exp:
+                raise Fail("generate_independent_of_other_codes", format(got, f"0{n}b"), format(exp, f"0{n}b"), code)
+            continue
+        w = v & ((1 << n) - 1)
+        if op == "check":
+            st, res = call(cls.check, _bits(w, n))
+            if bool(res) != (w in refset(code)):
+                raise Fail("check_independent_of_other_codes", bool(res), w in refset(code), code)
+            continue
+        exp_ok, exp_w = _nearest(code, w)
+        if op == "numpy":
+            st, arr = call(cls.correct_numpy_array, numpy.array(_bits(w, n).tolist()))
+            got = gf2.bits_to_int([int(x) for x in numpy.asarray(arr).tolist()])
+            if got != exp_w:
+                raise Fail("numpy_repair_independent_of_other_codes", format(got, f"0{n}b"), format(exp_w, f"0{n}b"), code)
+            continue
+        st, res = call(cls.check_and_correct, _bits(w, n))
+        ok, word = res
+        got = gf2.bits_to_int(bitarray(word).tolist())
+        if bool(ok) != exp_ok or got != exp_w:
+            raise Fail("repair_independent_of_other_codes", [bool(ok), format(got, f"0{n}b")], [exp_ok, format(exp_w, f"0{n}b")], code)
+
+
+def _near_codeword(code, rng, weight):
+    n, k = gf2.CODES[code][0], gf2.CODES[code][1]
+    w = gf2.bits_to_int(gf2.ref_encode(code, gf2.int_to_bits(rng.getrandbits(k), k)))
+    for pos in rng.sample(range(n), weight):
+        w ^= 1 << pos
+    return w
+
+
+def drv_cross_code(ctx: Ctx, sub: SubCheck):
+    from hypothesis import strategies as st
+
+    codes = list(LIB)
+    rng = ctx.rng("cross_code")
+    det = []
+    # directed: a word at distance 0 / 1 / 2 of a codeword of code A goes through code A, then the same image through every
+    # other code (every op it has), then through code A again - for every ordered pair of codes and both orders of use
+    for a in codes:
+        for weight in (0, 1, 2):
+            for _ in range(ctx.pick(2, 12)):
+                v = _near_codeword(a, rng, weight)
+                ops_a = _OPS_HAMMING if a in HAMMING else _OPS_ALL
+                for b in codes:
+                    if b == a:
+                        continue
+                    ops_b = _OPS_HAMMING if b in HAMMING else _OPS_ALL
+                    first = [[a, v, op] for op in ops_a]
+                    other = [[b, v, op] for op in ops_b]
+                    det.append({"steps": first + other + first})
+                    det.append({"steps": other + first + other})
+
+    def work(chunk, t: Tally):
+        for c in chunk:
+            ctx.run_case(sub.name, oracle_cross_code, c, t)
+            t.case(sub.name, key=c, nontrivial=True, cls="directed:" + c["steps"][0][0] + ">" + c["steps"][len(c["steps"]) // 2][0])
+
+    ctx.shards(work, [det[i::16] for i in range(16)])
+
+    def step_for(code):
+        ops = _OPS_HAMMING if code in HAMMING else _OPS_ALL
+        return st.tuples(st.just(code), st.sampled_from(ops))
+
+    def mk(images, picks):
+        return {"steps": [[code, images[i % len(images)], op] for (code, op), i in picks]}
+
+    def image():
+        # a near-codeword of a random code (so that repairs have work to do), or an arbitrary 20-bit image
+        def near(code, m, flips):
+            n, k = gf2.CODES[code][0], gf2.CODES[code][1]
+            w = gf2.bits_to_int(gf2.ref_encode(code, gf2.int_to_bits(m & ((1 << k) - 1), k)))
+            for pos in flips:
+                w ^= 1 << (pos % n)
+            return w
+
+        return st.one_of(
+            st.builds(near, st.sampled_from(codes), st.integers(0, (1 << 12) - 1), st.lists(st.integers(0, 19), min_size=0, max_size=2)),
+            st.integers(0, (1 << 20) - 1),
+        )
+
+    strat = st.builds(
+        mk,
+        st.lists(image(), min_size=1, max_size=2),
+        st.lists(st.tuples(st.one_of(*[step_for(c) for c in codes]), st.integers(0, 1)), min_size=3, max_size=12),
+    )
+
+    def rec(c, tt):
+        used = {x[0] for x in c["steps"]}
+        tt.case(sub.name, key=c, nontrivial=len(used) >= 2, cls=f"random:{min(len(used), 4)}_codes")
+
+    def hyp(shard, t: Tally):
+        ctx.hypothesis(sub.name, strat, oracle_cross_code, ctx.pick(150, 2500), tally=t, shard=shard, record=rec)
+
+    ctx.shards(hyp, list(range(16)))
+
+
+PRELUDE_GROUPS = ("fec", "bptc")
+
 SUBCHECKS = [
+    SubCheck("cross_code", oracle_cross_code, drv_cross_code, "histories that send one bit image through several of the seven codes (check / generate / both repair entry points): every call gives the reference result for its own code and word"),
     SubCheck("encode", oracle_encode, drv_encode, "all 2^k messages: systematic, equals reference cyclic code, passes checker"),
     SubCheck("check_word", oracle_check_word, drv_check_word, "all 2^n words: checker accepts exactly the 2^k reference codewords"),
     SubCheck("min_distance", oracle_min_distance, drv_min_distance, "all pairs of library codewords: distance >= advertised d"),
